@@ -450,6 +450,58 @@ theorem commit_frame {R} (hR : StoreRel R) (s : Sys) (i : Nat) (e : AuthId) (c :
             · exact Framed.refl hR i s
             · exact commitAdmitted_frame hR s i nd hn _ _ cs acks
 
+/-! ### follower gap repair -/
+
+theorem repairProps_frame {R} (hR : StoreRel R) (f c : Nat) : ∀ (ps : List PRec) (s : Sys),
+    SameOwners s (repairProps s f c ps).1 ∧ StoresRel R s (repairProps s f c ps).1 := by
+  intro ps
+  induction ps with
+  | nil => intro s; exact ⟨SameOwners.refl _, StoresRel.refl hR _⟩
+  | cons p ps ih =>
+    intro s
+    simp only [repairProps]
+    split
+    · exact ⟨SameOwners.refl _, StoresRel.refl hR _⟩
+    · have h1 := SameOwners.setStore s f ((s.storeOf f).sync p.m p.contents (min c p.m.last)).1
+      have h2 := StoresRel.setStore hR s f _ (hR.sync (s.storeOf f) p.m p.contents (min c p.m.last))
+      generalize (s.storeOf f).sync p.m p.contents (min c p.m.last) = r at h1 h2 ⊢
+      obtain ⟨st, out⟩ := r
+      simp only at h1 h2 ⊢
+      split
+      · have := ih (s.setStore f st)
+        exact ⟨h1.trans this.1, StoresRel.trans hR h2 this.2⟩
+      · exact ⟨h1, h2⟩
+
+theorem repairFollower_frame {R} (hR : StoreRel R) (s : Sys) (l f nf : Nat) :
+    SameOwners s (repairFollower s l f nf).1 ∧ StoresRel R s (repairFollower s l f nf).1 := by
+  have triv : SameOwners s s ∧ StoresRel R s s := ⟨SameOwners.refl _, StoresRel.refl hR _⟩
+  unfold repairFollower
+  split
+  · exact triv
+  · cases hl : (s.storeOf l).load with
+    | error e => exact triv
+    | ok state =>
+      simp only
+      split
+      · exact triv
+      · generalize (if nf > 1 then
+            match (s.storeOf l).probe (nf - 1) with
+            | Except.ok (some id) => some id
+            | _ => none
+          else some Ident.zero) = pe
+        cases pe with
+        | none => exact triv
+        | some previous =>
+          simp only
+          cases hf : (s.storeOf l).fetch state nf state.manifest.last previous with
+          | error e => exact triv
+          | ok props =>
+            simp only
+            have := repairProps_frame hR f state.committed props s
+            generalize repairProps s f state.committed props = r at this ⊢
+            obtain ⟨s', b⟩ := r
+            cases b <;> exact this
+
 /-! ### whole steps -/
 
 theorem started_frame {R} (hR : StoreRel R) (s : Sys) : StoresRel R s { s with started := true } :=
@@ -489,6 +541,13 @@ theorem step_stores {R} (hR : StoreRel R) (s : Sys) (op : Op) (hs : s.started = 
         by_cases hv : v = i
         · subst hv; simp [Sys.storeOf, hn]; exact hR.refl _
         · simp [hv]; exact hR.refl _
+  | repair l f nf =>
+    simp only [step]
+    split
+    · split
+      · exact StoresRel.refl hR _
+      · exact (repairFollower_frame hR _ l f nf).2
+    · exact StoresRel.refl hR _
   | install i a ps acks =>
     simp only [step]
     cases hn : Sys.node? ⟨n, q, cap, true, nodes, owners⟩ i with
